@@ -255,6 +255,30 @@ if prop == 'C10':
         except ResolutionError: got = 'RESERR'
         except Exception as ex: got = 'EXC:' + type(ex).__name__
         if got != want: viol.append({'doc': text, 'path': ['<scope>', k], 'what': 'a reference fetched through the scope mapping resolves to %s, its own let gives %s' % (got, want)})
+# ---- histories on a `with` expression through its own item access (sixth round of seeds): after the environment gains, loses or
+# replaces a binding, a name resolved through with_expr[key] follows the environment as it is NOW
+if prop == 'C10':
+    def wv(e, k):
+        try:
+            x = e[k]; r_ = x.value if isinstance(x, Identifier) else x; return r_.rebuild().strip() if hasattr(r_, 'rebuild') else repr(r_)
+        except ResolutionError: return 'RESERR'
+        except Exception as ex: return 'EXC:' + type(ex).__name__
+    def hist(name, text, steps):
+        e = parse(text + '\n').expr; count('with-history')
+        for i, (act, want) in enumerate(steps):
+            got = act(e)
+            if want is not None and got != want:
+                viol.append({'doc': text, 'history': name, 'step': i, 'what': 'after the with environment changed, resolution gives %s, the environment now gives %s' % (got, want)}); return
+    hist('add', 'with { a = 5; }; { foo = a; bar = b; }', [(lambda e: wv(e, 'foo'), '5'), (lambda e: wv(e, 'bar'), 'RESERR'), (lambda e: e.environment.__setitem__('b', 7), None), (lambda e: wv(e, 'bar'), '7'), (lambda e: wv(e, 'foo'), '5')])
+    hist('delete', 'with { a = 5; c = 1; }; { foo = a; }', [(lambda e: wv(e, 'foo'), '5'), (lambda e: e.environment.__delitem__('a'), None), (lambda e: wv(e, 'foo'), 'RESERR')])
+    hist('overwrite', 'with { a = 5; }; { foo = a; }', [(lambda e: wv(e, 'foo'), '5'), (lambda e: e.environment.__setitem__('a', 8), None), (lambda e: wv(e, 'foo'), '8')])
+    hist('replace-env', 'let env = { a = 1; }; in with env; { foo = a; }', [(lambda e: wv(e, 'foo'), '1'), (lambda e: e.scope.__setitem__('env', parse('{ a = 2; }').expr), None), (lambda e: wv(e, 'foo'), '2')])
+    try:
+        from nix_manipulator.expressions.with_statement import WithStatement
+        d1 = parse('with { a = 1; }; { foo = a; }\n'); count('with-history'); v1 = wv(d1.expr, 'foo')
+        w2 = WithStatement(environment=parse('{ a = 2; }').expr, body=d1.expr.body); v2 = wv(w2, 'foo')
+        if (v1, v2) != ('1', '2'): viol.append({'doc': 'with { a = 1; }; { foo = a; }', 'history': 'body reused under another with', 'what': 'resolution gives %s then %s; the enclosing environments give 1 then 2' % (v1, v2)})
+    except Exception as ex: viol.append({'doc': 'WithStatement(environment=…, body=…)', 'what': 'history crashed: %s' % type(ex).__name__})
 # ---- stacked `with` environments and nothing else (fourth round of seeds): among withs the innermost one that has the name wins;
 # reached through the document-level item access, with an identifier or an attribute set as the body
 if prop == 'C10':
